@@ -172,3 +172,80 @@ impl FakeNet {
         f(&mut metadata)
     }
 }
+
+// ------------------------------------------------------------------------------------------------
+// mock clock for the wall-clock based windows
+
+thread_local! {
+    static CLOCK: std::cell::Cell<Option<(std::time::Instant, std::time::Duration)>> =
+        const { std::cell::Cell::new(None) };
+}
+
+/// Freeze the clock seen by processing-time / session windows *on this thread* at
+/// `base + offset` (`base` is fixed at the first call). `None` restores the real clock.
+pub fn set_clock(offset: Option<std::time::Duration>) {
+    CLOCK.with(|c| match offset {
+        None => c.set(None),
+        Some(off) => {
+            let base = c.get().map(|(b, _)| b).unwrap_or_else(std::time::Instant::now);
+            c.set(Some((base, off)));
+        }
+    })
+}
+
+pub(crate) fn now(real: std::time::Instant) -> std::time::Instant {
+    CLOCK.with(|c| match c.get() {
+        Some((base, off)) => base + off,
+        None => real,
+    })
+}
+
+// ------------------------------------------------------------------------------------------------
+// worker life-cycle callbacks
+
+type WorkerObserver = std::sync::Arc<dyn Fn(Coord, &'static str) + Send + Sync>;
+static WORKER_OBSERVER: once_cell::sync::Lazy<std::sync::RwLock<Option<WorkerObserver>>> =
+    once_cell::sync::Lazy::new(|| std::sync::RwLock::new(None));
+
+/// Install a callback told about `started` / `completed` / `crashed` of every worker.
+pub fn set_worker_observer(obs: Option<WorkerObserver>) {
+    *WORKER_OBSERVER.write().unwrap() = obs;
+}
+
+pub(crate) fn worker_event(coord: Coord, what: &'static str) {
+    let obs = WORKER_OBSERVER.read().unwrap().clone();
+    if let Some(obs) = obs {
+        obs(coord, what);
+    }
+}
+
+/// The coordinate of the replica the calling worker thread runs (None outside workers).
+pub fn replica_coord() -> Option<Coord> {
+    crate::worker::replica_coord()
+}
+
+// ------------------------------------------------------------------------------------------------
+// execution graph dump
+
+#[derive(Clone, Debug, PartialEq, Eq)]
+pub struct BlockDump {
+    pub block_id: CoordUInt,
+    /// every replica with its global id, sorted by coordinate
+    pub replicas: Vec<(Coord, CoordUInt)>,
+    /// replicas grouped by host (in the order the scheduler stores them), sorted by host
+    pub per_host: Vec<(CoordUInt, Vec<Coord>)>,
+    pub is_only_one_strategy: bool,
+}
+
+#[derive(Clone, Debug, PartialEq, Eq)]
+pub struct GraphDump {
+    pub blocks: Vec<BlockDump>,
+    /// (from, to, fragile), sorted
+    pub links: Vec<(Coord, Coord, bool)>,
+    /// ((block, host, prev_block), address, port), sorted
+    pub addresses: Vec<((CoordUInt, CoordUInt, CoordUInt), String, u16)>,
+}
+
+pub use crate::network::verif_hooks::{frame_recv, frame_send, set_link_observer, LinkEvent};
+pub use crate::operator::iteration::verif_hooks as iteration;
+pub use crate::operator::verif_hooks as ops;
